@@ -18,12 +18,13 @@ def plan(tier):
             wit = [W_OK, 'value taken from the environment']
             if (decl, k) in ((5, 2), (6, 2), (7, 0), (7, 1), (8, 0)):
                 wit.append(W_ERR)
-            qs.append(Q(P, decl, [], env={k: '***'}, wit=wit, extra=E + ['-DWIT_ENVSRC=%d' % k]))       # not given, env symbolic (incl. empty, '-5', '--a', ';')
+            toks = ['--o=v'] if (decl, k) == (7, 1) else []      # decl 7: the required option has to be given for the toggle's source to matter
+            qs.append(Q(P, decl, toks, env={k: '***'}, wit=wit, extra=E + ['-DWIT_ENVSRC=%d' % k]))       # not given, env symbolic (incl. empty, '-5', '--a', ';')
         qs.append(Q(P, decl, [], wit=(W_OK,) if decl in (5, 6) else (W_ERR,), extra=E))                      # not given, env unset
     qs += [Q(P, 5, ['--o=**'], env={0: '**'}, extra=E, wit=(W_OK,)), Q(P, 5, ['--m', '**'], env={1: '**'}, extra=E, wit=(W_OK, W_ERR)),
            Q(P, 5, ['-t'], env={2: '**'}, extra=E, wit=(W_OK,)), Q(P, 6, ['--o', '**'], env={0: '**'}, extra=E), Q(P, 6, ['--m=**'], env={1: '**'}, extra=E, wit=(W_OK,)),
            Q(P, 6, ['--t'], env={2: '**'}, extra=E, wit=(W_OK,)), Q(P, 7, ['--o=*'], env={0: '**'}, extra=E, wit=(W_OK,)), Q(P, 8, ['--m=*'], env={0: '**'}, extra=E, wit=(W_OK,)),
-           Q(P, 11, ['**', '**'], extra=E), Q(P, 5, [], env={0: '**', 1: '**', 2: '**'}, extra=E)]
+           Q(P, 11, ['--o=*', '**'], extra=E), Q(P, 11, ['**'], extra=E, wit=(W_ERR,)), Q(P, 5, [], env={0: '**', 1: '**', 2: '**'}, extra=E)]
     if th:
         qs += [Q(P, 5, [], env={0: '*****'}, extra=E, wit=(W_OK,)), Q(P, 5, [], env={1: '*****'}, extra=E, wit=(W_OK,), timeout=3000), Q(P, 8, [], env={0: '*****'}, extra=E, timeout=3000),
                Q(P, 5, ['***'], env={0: '**', 1: '**', 2: '**'}, extra=E, timeout=3000), Q(P, 6, ['***'], env={0: '**', 1: '**', 2: '**'}, extra=E, timeout=3000),
